@@ -2,9 +2,9 @@ package props
 
 import (
 	"bytes"
-	"io"
 	"crypto"
 	"fmt"
+	"io"
 	"strings"
 
 	"golang.org/x/crypto/openpgp"
